@@ -610,6 +610,19 @@ do_retrieve(void)
   }
 
   if (rv == MORE) {
+    if (rb->curr_pos.offset < head_offs) {
+      /* While this speculative job was running outside the monitor, the
+         sequential decoder moved past its position and released the input
+         behind it, so the job cannot start at a real block boundary.  It
+         must not go back to the queue with a position that can no longer be
+         attached; release it like advance() does for queued jobs. */
+      Trace(("Retriever was overtaken by the parser"));
+      work_units++;
+      decoder_free(&rb->ds);
+      free(rb);
+      check_invariants();
+      return;
+    }
     Trace(("Retriever blocked waiting for input"));
     enqueue(retr_q, rb);
     check_invariants();
